@@ -854,27 +854,6 @@ fn run_c05(seed: u64, n: usize, out: &mut Out) {
 
 // ------------------------------------------------------------------ C04
 
-/// K-null-tag-hint: some filter compares against a tag of nullable type whose property is null on
-/// some vertex of the dataset
-fn class_null_tag(c: &EngineCase) -> bool {
-    let mut hit = false;
-    walk_components(&c.indexed.ir_query.root_component, &mut |comp| {
-        for v in comp.vertices.values() {
-            for f in &v.filters {
-                if let Some(Argument::Tag(FieldRef::ContextField(cf))) = op_right(f) {
-                    if cf.field_type.nullable() {
-                        let name = cf.field_name.to_string();
-                        if c.dataset.vtype.keys().any(|vx| !c.dataset.props.get(vx).map(|pm| pm.contains_key(&name)).unwrap_or(false)) {
-                            hit = true;
-                        }
-                    }
-                }
-            }
-        }
-    });
-    hit
-}
-
 /// K-ge-tag-hint (syntactic part): some vertex filter is `>=` against a tag
 fn class_ge_tag(c: &EngineCase) -> bool {
     let mut hit = false;
@@ -888,10 +867,6 @@ fn class_ge_tag(c: &EngineCase) -> bool {
         }
     });
     hit
-}
-
-fn is_null_tag_panic(m: &str) -> bool {
-    m.contains("cannot bound range with null value") || m.contains("produced an invalid value when resolving @tag")
 }
 
 fn run_c04(seed: u64, n: usize, oracle_only: bool, out: &mut Out) {
@@ -968,11 +943,8 @@ fn run_c04(seed: u64, n: usize, oracle_only: bool, out: &mut Out) {
             }
             (Outcome::Rows(_), Outcome::Panic(m)) => {
                 let detail = json!({"plain": show_outcome(&plain), "pruned_panic": m.chars().take(300).collect::<String>()});
-                if is_null_tag_panic(m) && class_null_tag(&c) {
-                    out.oracle_fail_class("K-null-tag-hint", "resolving a dynamic hint panicked", input.clone(), detail);
-                } else {
-                    out.oracle_fail("the pruning adapter panicked while using the hints", input.clone(), detail);
-                }
+                // (F17, a null @tag value, was repaired in /repo: any panic here is a violation)
+                out.oracle_fail("the pruning adapter panicked while using the hints", input.clone(), detail);
                 out.count("oracle:pruned-panic");
             }
             (Outcome::Panic(_), _) => out.count("oracle:plain-panic"),
@@ -1018,11 +990,7 @@ fn run_c04(seed: u64, n: usize, oracle_only: bool, out: &mut Out) {
         // a panic while merely ASKING for / resolving a hint on a live context
         if let Some(m) = st.stats.hint_panics.first() {
             let detail = json!({"panic": m.chars().take(300).collect::<String>()});
-            if is_null_tag_panic(m) && class_null_tag(&c) {
-                out.oracle_fail_class("K-null-tag-hint", "resolving a dynamic hint panicked", input.clone(), detail);
-            } else {
-                out.oracle_fail("a hint query panicked", input.clone(), detail);
-            }
+            out.oracle_fail("a hint query panicked", input.clone(), detail);
         }
         let keys: Vec<String> = st.infos.keys().map(|(v, c)| format!("({v}%N, {})", coq::cbool(*c))).collect();
         let nontrivial = st.stats.static_hints + st.stats.dynamic_hints + st.stats.mandatory_edges > 0;
